@@ -10,13 +10,25 @@ import pvlib
 from pvlib import Check, run_tlc, run_cases, payloads
 
 
-def judge(ck, cases, binary, label):
+# places where an expression may be written: the grouping of the expression is the table's wherever it stands (QQ = the expression)
+WRAPPERS = ["[QQ]", "[0, QQ]", "f(QQ)", "f(0, QQ)", "x[QQ]", "f(k: QQ)", "{k: QQ}", "%{QQ: 1}", "%{1: QQ}", "{|| QQ}", "x.m(QQ)", "x@m(QQ)", "x$m(0, QQ)", "\"#{QQ}\"", "<{QQ}>", "(QQ:1)",
+            "x[QQ:]", "(QQ)", "[(QQ)]", "f((QQ))"]
+
+
+def judge(ck, cases, binary, label, thorough=False):
     reqs = []
     for i, c in enumerate(cases):
         reqs.append({"id": f"s{i}", "mode": "parse", "src": c["src"]})
         if c["paren"] != "SYNTAX":
             reqs.append({"id": f"p{i}", "mode": "parse", "src": c["paren"]})
+            if c["j"] == 0 and not c["undet"]:
+                for k in (range(len(WRAPPERS)) if thorough else [(i * 3 + d) % len(WRAPPERS) for d in range(3)]):
+                    reqs.append({"id": f"w{i}.{k}", "mode": "parse", "src": WRAPPERS[k].replace("QQ", c["src"])})
+    reqs += [{"id": f"t{k}", "mode": "parse", "src": w} for k, w in enumerate(WRAPPERS)]
     out = run_cases(reqs, binary=binary, label=label)
+    templ = [out[f"t{k}"]["end"] for k in range(len(WRAPPERS))]
+    if any(not t.startswith("ast:") or t.count("QQ") != 1 for t in templ):
+        raise pvlib.Broken(f"a wrapper did not parse as a tree with one hole: {templ}")
     stats = {"grouping_compared": 0, "both_syntax": 0, "spec_rejects_parser_accepts": 0, "undetermined": 0}
     nontrivial = set()
     for i, c in enumerate(cases):
@@ -52,6 +64,17 @@ def judge(ck, cases, binary, label):
                       {"src": c["src"], "paren": c["paren"], "parse": s, "expected_tree": c["ast"], "variant": label})
         elif c["paren"].count("(") >= 2:
             nontrivial.add(c["src"])
+        if s == "ast:" + c["ast"] and c["j"] == 0:
+            for k in range(len(WRAPPERS)):
+                w = out.get(f"w{i}.{k}")
+                if w is None:
+                    continue
+                stats["in_context"] = stats.get("in_context", 0) + 1
+                want = templ[k].replace("QQ", c["ast"])
+                if w["end"] != want:
+                    ck.reject(f"C02:context:{label}:w={k}:c={','.join(str(x) for x in c['c'])}:u={','.join(str(x) for x in c['u'])}",
+                              f"{c['src']!r} alone parses as {c['ast']!r}, but written in {WRAPPERS[k]!r} the whole is {w['end'][4:]!r} (expected {want[4:]!r})",
+                              {"src": WRAPPERS[k].replace("QQ", c["src"]), "paren": WRAPPERS[k].replace("QQ", c["paren"]), "parse": w["end"], "expected_tree": want[4:], "variant": label})
         ck.sample({"src": c["src"], "paren_by_table": c["paren"], "parser_tree": s})
     return stats, nontrivial
 
@@ -71,7 +94,7 @@ def run():
     total = 0
     nontrivial = set()
     for label, binary in variants:
-        stats, nt = judge(ck, cases, binary, label)
+        stats, nt = judge(ck, cases, binary, label, thorough)
         ck.cov.setdefault("variants", {})[label] = stats
         total += len(cases)
         nontrivial |= nt
@@ -81,7 +104,8 @@ def run():
     ck.cov["exhaustive"] = True
     ck.cov["rule"] = ("TLC enumerates every statement `[jump] U1 c1 U2 [c2 U3 [c3 U4]]` with connectors c in 23 infix operators + := += => if else "
                       "(all ordered pairs; all triples in thorough) and units U in 18 operand shapes (identifier, literal, call, index, grouped, "
-                      "prefix operators, chains with/without arguments and additional context) varied one position at a time, under each jump keyword; "
+                      "prefix operators, chains with/without arguments and additional context) varied one position at a time, under each jump keyword; every statement without a jump keyword also written inside "
+                      f"{len(WRAPPERS)} enclosing places (list element, argument, keyword value, index, bound, pair key / value, function and iterator body, interpolation, parentheses: 3 per statement, thorough all) where its tree must be the same; "
                       "non-trivial = distinct statements whose table grouping has >= 2 nested groups and that parse identically with and without the parentheses")
     ck.assumptions = ["grouping parentheses themselves are parsed correctly", "chained if-expressions are not determined by the table and only logged"]
     if not nontrivial:
@@ -94,7 +118,9 @@ def replay(path):
     out = run_cases([{"id": "s", "mode": "parse", "src": c["src"]}, {"id": "p", "mode": "parse", "src": c["paren"]}], nproc=1)
     print("parse(src)   =", out["s"]["end"])
     print("parse(paren) =", out["p"]["end"])
-    if out["s"]["end"] != out["p"]["end"]:
+    if c.get("expected_tree"):
+        print("table's tree =", c["expected_tree"])
+    if out["s"]["end"] != out["p"]["end"] or (c.get("expected_tree") and out["s"]["end"] != "ast:" + c["expected_tree"]):
         print(f"VIOLATION property=C02 replay={path}")
         return 1
     return 0
